@@ -729,8 +729,20 @@ func (c *Ctx) patternLoopsComplete(rule string) {
 	front, f := c.c08Compiler()
 	c.FuncsSeen[fname(f)] = true
 	key := fname(front) + "/every-pattern"
-	bad := ""
-	loops := 0
+	loops, bad := c.loopsRunToTheEnd(f)
+	switch {
+	case loops == 0:
+		c.undecided(rule, key, c.pos(f.Pos()), "no loop over the patterns found")
+	case bad != "":
+		c.violate(rule, key, bad, "a loop over the patterns can be left here before the end of the list without an error: the patterns after this point are never compiled, so the entries they name are reported, copied, archived or deleted like any other (a blank pattern ahead of a real one is enough)")
+	default:
+		c.ok(rule, key, c.pos(f.Pos()), strconv.Itoa(loops)+" loop(s) over the patterns run to the end of the list (error exits aside)")
+	}
+}
+
+// loopsRunToTheEnd counts the natural loops of f and reports the position of an exit from the body of one of them (the
+// header's own exit aside) that neither returns a non-nil error nor panics: a `break`, a `return nil`, a `goto` out.
+func (c *Ctx) loopsRunToTheEnd(f *ssa.Function) (loops int, bad string) {
 	for _, h := range f.Blocks {
 		body := map[*ssa.BasicBlock]bool{}
 		var stack []*ssa.BasicBlock
@@ -779,14 +791,7 @@ func (c *Ctx) patternLoopsComplete(rule string) {
 			}
 		}
 	}
-	switch {
-	case loops == 0:
-		c.undecided(rule, key, c.pos(f.Pos()), "no loop over the patterns found")
-	case bad != "":
-		c.violate(rule, key, bad, "a loop over the patterns can be left here before the end of the list without an error: the patterns after this point are never compiled, so the entries they name are reported, copied, archived or deleted like any other (a blank pattern ahead of a real one is enough)")
-	default:
-		c.ok(rule, key, c.pos(f.Pos()), strconv.Itoa(loops)+" loop(s) over the patterns run to the end of the list (error exits aside)")
-	}
+	return
 }
 
 // c08Pure (E10): "for any tree and any set of exclusion patterns": what a set of patterns excludes depends on that set only.
